@@ -426,6 +426,17 @@ class Ovld:
 
     def lock(self):
         self._locked = True
+        for mixin in self.mixins:
+            mixin.lock()
+
+    def _lock_unlinked_ancestors(self):
+        for mixin in self.mixins:
+            if self in mixin.children:
+                # Changes to this mixin are propagated to us, but its own
+                # unlinked ancestors would not be.
+                mixin._lock_unlinked_ancestors()
+            else:
+                mixin.lock()
 
     def _attempt_modify(self):
         if self._locked:
@@ -485,9 +496,7 @@ class Ovld:
         This will also lock this ovld's parent mixins to prevent their
         modification.
         """
-        for mixin in self.mixins:
-            if self not in mixin.children:
-                mixin.lock()
+        self._lock_unlinked_ancestors()
 
         if self.name is None:
             self.name = self.__name__ = f"ovld{self.id}"
